@@ -79,7 +79,7 @@ def c_scripts(sc):
     return lib.clist(items)
 
 
-DFLT_RECORD = {'solve_t': 'dflt_solve_t', 'solve_period': 'dflt_solve_period', 'solve': 'dflt_solve', 'iter_periods': 'dflt_solve', 'iter_next': 'dflt_solve'}
+DFLT_RECORD = {'solve_t': 'dflt_solve_t', 'solve_period': 'dflt_solve_period', 'solve': 'dflt_solve', 'iter_periods': 'dflt_solve', 'iter_next': 'dflt_solve', 'iter_protocol': 'dflt_solve'}
 FIELD = {'min_iter': 'min_iter', 'max_iter': 'max_iter', 'tol': 'tol', 'offset': 'offset', 'failures': 'fail_raise', 'errors': 'errors',
          'catch_first_error': 'catch_first'}
 
@@ -486,6 +486,14 @@ def run_solve_and_twin(case, fresh, nvars, names):
         elif case['entry'] == 'iter_next':
             first = next(m.iter_periods(start=start, end=end))        # the first (position, label) pair
             out = ['ret', [lab_id(first[1])], [int(first[0])], [False], [type(first[0]).__name__], 1]
+        elif case['entry'] == 'iter_protocol':
+            # the whole protocol on ONE PeriodIter: next, next, list (all pairs again), list (repeatable), len
+            pi = m.iter_periods(start=start, end=end)
+            a = next(pi)
+            b = next(pi)
+            pairs = [a, b] + list(pi) + list(pi)
+            out = ['ret', [lab_id(lab) for _, lab in pairs], [int(t) for t, _ in pairs], [False] * len(pairs),
+                   [type(t).__name__ for t, _ in pairs], int(len(pi))]
         elif case['entry'] == 'iter_periods':
             pi = m.iter_periods(start=start, end=end)
             pairs = list(pi)
@@ -520,7 +528,7 @@ def run_solve_and_twin(case, fresh, nvars, names):
     obs['ids'] = ids
     # the twin: a loop of solve_t over the positions the statement names
     exp = expected_range(case)
-    if exp is not None and exp[0] == 'range' and case['entry'] not in ('iter_periods', 'iter_next'):
+    if exp is not None and exp[0] == 'range' and case['entry'] not in ('iter_periods', 'iter_next', 'iter_protocol'):
         tw = fresh()
         flags, tout = [], None
         rng_ = [exp[1]] if case['entry'] == 'solve_period' else range(exp[1], exp[2] + 1)
@@ -555,11 +563,11 @@ def c_scase(case, obs):
         xout = '(Ret (1%%nat, [(%s, 0, %s)]))' % (lib.cZ(spec_id(case, ids, case['start'])), lib.cbool(out[1]))
     else:
         vis = ['(%s, %s, %s)' % (lib.cZ(l), lib.cZ(t), lib.cbool(b)) for l, t, b in zip(out[1], out[2], out[3]) if t is not None]
-        xout = '(Ret (%d%%nat, %s))' % (out[5] if case['entry'] in ('iter_periods', 'iter_next') else len(out[1]), lib.clist(vis))
+        xout = '(Ret (%d%%nat, %s))' % (out[5] if case['entry'] in ('iter_periods', 'iter_next', 'iter_protocol') else len(out[1]), lib.clist(vis))
     tbl = lib.clist('(%s, %s)' % (lib.cZ(int(k)), c_locres(v)) for k, v in sorted(obs['loc'].items(), key=lambda kv: int(kv[0])))
     return '(mkSCase %s %s %s %d%%nat %s %s %d%%nat %s %s %s %s %s)' % (
         c_scripts(resolved_scripts(case)), c_desc(case), c_opts(case['opts'], case['entry']), SPAN_KIND[case['span_type']],
-        lib.clist(lib.cZ(i) for i in ids), tbl, {'solve_period': 1, 'iter_periods': 2, 'iter_next': 3}.get(case['entry'], 0),
+        lib.clist(lib.cZ(i) for i in ids), tbl, {'solve_period': 1, 'iter_periods': 2, 'iter_next': 3, 'iter_protocol': 4}.get(case['entry'], 0),
         opt(case['start']), opt(case['end']),
         c_state(case['vals'], case['status'], case['iters'], []),
         c_state(obs['vals'], obs['status'], obs['iters'], obs['log']), xout)
